@@ -37,8 +37,9 @@ type c18Test struct {
 	afterLongLine bool
 }
 
-// c18ExpectedOfSource lists the top-level, receiver-less functions named
-// test… / failing_test… of one Go source file, in source order.
+// c18ExpectedOfSource lists the top-level functions named test… / failing_test…
+// of one Go source file that have the signature of a test (c18IsTestSignature),
+// in source order.
 func c18ExpectedOfSource(name string, src []byte, markLong bool) ([]c18Test, error) {
 	fset := token.NewFileSet()
 	f, err := parser.ParseFile(fset, name, src, parser.SkipObjectResolution)
@@ -57,7 +58,7 @@ func c18ExpectedOfSource(name string, src []byte, markLong bool) ([]c18Test, err
 	var out []c18Test
 	for _, d := range f.Decls {
 		fd, ok := d.(*ast.FuncDecl)
-		if !ok || fd.Recv != nil {
+		if !ok || !c18IsTestSignature(fd) {
 			continue
 		}
 		n := fd.Name.Name
@@ -76,6 +77,38 @@ func c18ExpectedOfSource(name string, src []byte, markLong bool) ([]c18Test, err
 		out = append(out, t)
 	}
 	return out, nil
+}
+
+// c18IsTestSignature is the rule for WHICH functions named test… / failing_test… are test
+// functions: exactly those the two generated tests can run. The Go test is
+// `suite.Equal(true, f())`, the Coq test `f #() ~~> #true`: f is called without arguments and
+// without type arguments and its single result is compared with the boolean true. So: a
+// top-level function without receiver, without type parameters, without parameters (a variadic
+// parameter is a parameter: the translation takes a slice), with exactly one result, of the
+// predeclared type bool (named or parenthesised as the author likes). Anything else — a
+// parameter, no / two results, a result of another type, also of a defined type over bool
+// (testify's Equal compares it unequal to true) — cannot be a test and gets none.
+func c18IsTestSignature(fd *ast.FuncDecl) bool {
+	if fd.Recv != nil || fd.Type.TypeParams != nil {
+		return false
+	}
+	if fd.Type.Params != nil && len(fd.Type.Params.List) > 0 {
+		return false
+	}
+	res := fd.Type.Results
+	if res == nil || len(res.List) != 1 || len(res.List[0].Names) > 1 {
+		return false
+	}
+	t := res.List[0].Type
+	for {
+		p, ok := t.(*ast.ParenExpr)
+		if !ok {
+			break
+		}
+		t = p.X
+	}
+	id, ok := t.(*ast.Ident)
+	return ok && id.Name == "bool"
 }
 
 // c18Expected reads the directory as written on disk: files in name order
@@ -390,7 +423,11 @@ func runC18(r *core.Run) (bool, string) {
 		"where -out points and what it is called (out_name_* keys): 6 locations (other directory, sub-directory of the package, the package directory; absolute and relative paths) × 10 base-name classes (names of the package's own source / non-Go files, the conventional _test.go names, swapped extensions, new names) × {-go, -coq} on private copies of further plain directories: the file must equal the stdout of the same generation and no other file of the package may change (in-package targets that are themselves sources are only recorded); " +
 		"kind of directory entry (entry_kind_* keys): one special entry per directory (regular / read-only file, symlinks to files outside and inside the directory, through a second link, named _test.go, directory and symlink-to-directory named x.go, dangling symlink); expected tests = go/parser over exactly the GoFiles that `go list -json` reports; directories go list rejects are skipped; " +
 		"physical shape of the source text (text_shape_* keys): one line of 10 KiB … 1 MiB (string constant, line / block comment, raw string, one-line table, the header line of a test function) before the first / between / after the last test function of a file, sizes on both sides of 64 KiB with the boundary values, CRLF alone and with such a line, no trailing newline, a byte-order mark, `func` after `;` / after a comment on the same line / indented, the name separated from `func` by a tab, spaces, a comment or a newline (every test function of the file spelled that way), several declarations or the whole file on one line, a generated-code header, //line directives, a 5 KiB name, 300 test functions, files of several MiB; " +
-		"build constraints (build_constraint_* keys): ≈ 80 files carrying //go:build lines over release / compiler / unix / cgo / GOOS / GOARCH / ignore / unknown / race tags (positive, negated, combined; below a licence or block comment, directly above the package clause, inside a block comment), old-style // +build lines with and without their blank line, both kinds of line, file-name constraints (_GOOS, _GOARCH, both, look-alikes, _test, bare GOOS names) and contradictions between name and line, three per directory next to two unconstrained files; for both families expected tests = go/parser over exactly the GoFiles that `go list -tags goose` reports, judged file by file for the constrained files; constraints on the tag goose itself are only noted; " +
+		"build constraints (build_constraint_* keys): ≈ 80 files carrying //go:build lines over release / compiler / unix / cgo / GOOS / GOARCH / ignore / unknown / race tags (positive, negated, combined; below a licence or block comment, directly above the package clause, inside a block comment), old-style // +build lines with and without their blank line, both kinds of line, file-name constraints (_GOOS, _GOARCH, both, look-alikes, _test, bare GOOS names) and contradictions between name and line, three per directory next to two unconstrained files; constraints over the tag goose itself (goose, !goose, combined with GOOS / ignore / gc, // +build forms, with a file-name constraint); for both families expected tests = go/parser over exactly the GoFiles that `go list` reports BOTH with and without `-tags goose` (the Go test is compiled without the tag, goose translates with it; a file selected under one of the two only contributes no test to either output), judged file by file for the constrained files; " +
+		"signature of a function named test… (dims_function_signature_* keys): the special file of a directory declares a test… and a failing_test… function with a parameter (named, unnamed, blank, two, variadic), no result, two results, two named bool results, a result of type uint64 / string / error / *bool / func() bool / interface{} / a defined type over bool, type parameters, a value / pointer / generic receiver, and as controls plain, named-result, parenthesised-result and comment-in-the-parameter-list spellings of func() bool: a test function is one both generated tests can run (no receiver, no type parameters, no parameters, exactly one result of the predeclared type bool), every other function gets no test; " +
+		"package clause (dims_package_clause_* keys): a special file of package documentation (five spellings, two files, in a _test file), an external test package, a generator script (//go:build ignore + package main): complete lists per go list; a file of another package name (other, main, semantics_test, Semantics) next to two files of package semantics, which go list calls an error: no Go panic, the outputs agree, no test for a function of the minority file; " +
+		"file names (dims_file_name_* keys): source files named with Coq comment delimiters and double quotes (a*).go, x(*y.go, a*)b*).go, a(*b*)c.go, x*)(*y.go, m(**).go, q\"r.go, two\"quo\"tes.go, q\"r*).go, r\".go) and other punctuation: the -coq output must pass the lexer of the framework's Coq reader (nested comments, strings lexed inside comments), with the comments removed consist of Require and Example sentences only, and list exactly the tests of the GoFiles; " +
+		"-out target × arguments (out_args_* keys): target {stdout, absent / existing file elsewhere, existing non-source file and absent .go name inside the package directory, an existing source file of the package, a symlink to one, a directory, a missing parent} × argument {the package directory, none, a nonexistent directory, a file, a directory with a file that does not parse} × {-coq, -go} on private copies of one package: never a Go panic; bad arguments and unwritable targets exit ≠ 0; after an exit ≠ 0 a file that existed at the -out path is byte-identical; no source file is ever modified (a source file as target is refused); with a good package and a writable target the file equals the stdout generation for a pristine copy (the output is never read back); " +
 		"spelling of the package path (path_spelling_* keys): the same directory written 14 ways (absolute, relative, ./, ., ../, trailing and doubled slashes, /., /../, symlinks to it and to its parent) and identical copies under names with a space, brackets, *, ?, backslash, braces, quotes, $, unicode, a leading dash or dot, dots, Go-file-like names, 200-byte names, 1500-byte paths, glob characters in a parent (each glob-like name next to decoy packages the pattern would match): outputs must equal those for the copy under a plain absolute path")
 	r.Assume("go/parser and the Go compiler agree with the language specification on what a top-level function is")
 	r.Assume("a function named exactly `test` or `failing_test` is read as outside \"named test…\"; its treatment is only noted")
@@ -414,6 +451,16 @@ func runC18(r *core.Run) (bool, string) {
 			c18PathSpellings(r, tg)
 		default:
 			c18EntryKindsWorkload(r, tg)
+		}
+		return r.Evals() > 0, "the replayed workload could not be run"
+	}
+	if sig := replaySig(r.Replay); strings.HasPrefix(sig, c18SigSig) || strings.HasPrefix(sig, c18PkgSig) || strings.HasPrefix(sig, c18FNameSig) || strings.HasPrefix(sig, c18OutArgsSig) {
+		// functions of the seed only
+		switch {
+		case strings.HasPrefix(sig, c18OutArgsSig):
+			c18OutArgs(r, tg)
+		default:
+			c18DimFamilies(r, tg, strings.SplitN(sig, "/", 2)[0])
 		}
 		return r.Evals() > 0, "the replayed workload could not be run"
 	}
@@ -672,6 +719,12 @@ func runC18(r *core.Run) (bool, string) {
 		t = time.Now()
 		c18ShapeAndBuildFamilies(r, tg, "")
 		phase["text_shape_and_build_constraint"] = time.Since(t).Seconds()
+		t = time.Now()
+		c18DimFamilies(r, tg, "")
+		phase["signature_package_clause_file_name"] = time.Since(t).Seconds()
+		t = time.Now()
+		c18OutArgs(r, tg)
+		phase["out_and_arguments"] = time.Since(t).Seconds()
 		r.Set("workload_wall_s", phase)
 	}
 
@@ -696,6 +749,13 @@ func runC18(r *core.Run) (bool, string) {
 	if r.NumViolations() == 0 && (r.GetCount("text_shape_directories_judged") < 15 || r.GetCount("text_shape_go_files_compiled_ok") < 10 ||
 		r.GetCount("build_constraint_files_judged/go-build-line/selected-by-go-tool") < 8 || r.GetCount("build_constraint_files_judged/go-build-line/excluded-by-go-tool") < 8 || r.GetCount("build_constraint_files_judged/file-name/excluded-by-go-tool") < 2) {
 		return false, "text-shape / build-constraint families: fewer than 15 shaped directories judged (10 compiled), or fewer than 8 selected and 8 excluded //go:build files, or fewer than 2 files excluded by their name"
+	}
+	if r.NumViolations() == 0 && (r.GetCount("dims_function_signature_directories_judged") < 15 || r.GetCount("dims_function_signature_go_files_compiled_ok") < 15 || r.GetCount("dims_package_clause_directories_judged") < 8 ||
+		r.GetCount("dims_package_clause_go_files_compiled_ok") < 5 || r.GetCount("dims_file_name_coq_outputs_lexed") < 8) {
+		return false, "signature / package-clause / file-name families: fewer than 15 signature directories judged and compiled, fewer than 8 package-clause directories judged (5 compiled), or fewer than 8 -coq outputs for special file names put through the Coq lexer"
+	}
+	if r.NumViolations() == 0 && (r.GetCount("out_args_runs") < 60 || r.GetCount("out_args_existing_targets_compared_after_a_failed_run") < 10 || r.GetCount("out_args_outputs_equal_to_the_reference") < 8) {
+		return false, "-out target × argument workload: fewer than 60 runs, fewer than 10 existing targets compared after a failed run, or fewer than 8 outputs equal to the reference"
 	}
 	if r.NumViolations() == 0 && r.GetCount("path_spelling_outputs_compared_with_plain_copy") < 40 {
 		return false, "package-path spelling workload: fewer than 40 outputs compared with the plain-named copy"
